@@ -5,11 +5,9 @@ import (
 	"testing"
 
 	"github.com/tdewolff/parse/v2/buffer"
-
-	"verif/internal/ev"
 )
 
-// K-C13-1: replay of exactly the recorded history. Prints KNOWN-FINDING while the defect is present and listed.
+// fixed by 204142d (was known finding K-C13-1): replay of exactly the recorded history.
 func lexemeTailOverwritten() (bool, string) {
 	r := &schedReader{data: []byte("aab"), chunks: []int{1}, failAt: -1}
 	z := buffer.NewStreamLexerSize(r, 0)
@@ -26,13 +24,8 @@ func lexemeTailOverwritten() (bool, string) {
 	return !bytes.Equal(lex, cp), string(cp) + " -> " + string(lex)
 }
 
-func TestKnown_LexemeTail(t *testing.T) {
-	bad, what := lexemeTailOverwritten()
-	_, listed := ev.KnownFindings("C13")["K-C13-1"]
-	switch {
-	case bad && listed:
-		ev.ReportKnown("C13", "K-C13-1", "Lexeme() slice with an unshifted tail overwritten by a refill with 2 of 3 bytes freed: "+what)
-	case bad && !listed:
+func TestRegress_LexemeTail(t *testing.T) {
+	if bad, what := lexemeTailOverwritten(); bad {
 		t.Fatalf("Lexeme() slice overwritten by a refill with 2 of 3 bytes freed: %s", what)
 	}
 }
